@@ -141,7 +141,7 @@ impl PWorld {
         let script = scrypto_encode(&l.script).unwrap();
         let (nb, np, nr) = (l.buckets.len(), l.proofs, l.reservations.len());
         let refs = l.refs.clone();
-        let args = move |lk: ManifestNameLookup| {
+        let args = move |lk: &ManifestNameLookup| {
             (
                 script,
                 (0..nb).map(|i| lk.bucket(format!("b{i}"))).collect::<Vec<ManifestBucket>>(),
